@@ -192,13 +192,15 @@ def _eval_slope(case):
             inconclusive = True
             continue
         trivial = False
-        info[f"min_exponent_margin_{nm}"] = min(last) - demand
-        if min(last) < thr:
+        # judged on the exponent at the smallest couplings of that pair (the local exponent may approach its
+        # limit from below after a sign change of the difference)
+        info[f"min_exponent_margin_{nm}"] = last[-1] - demand
+        if last[-1] < thr:
             res.fail(
                 f"expanded_vs_exact/running/{nm}" if coupled else f"expanded_vs_exact/qcd={n}/{nm}",
                 f"{where0}: relative difference expanded-exact for lambda=2^-k: "
                 f"{[None if r is None else float('%.3e' % r[i]) for r in rs]}; local exponents "
-                f"{[round(e, 2) for _, e in exps]}; the asymptotic pair {[round(e, 2) for e in last]} must be >= {thr} "
+                f"{[round(e, 2) for _, e in exps]}; the asymptotic pair is {[round(e, 2) for e in last]}, its last member must be >= {thr} "
                 f"(difference must be of relative order lambda^{demand:g})",
             )
     margins = [v for k, v in info.items() if k.startswith("min_exponent_margin") and v is not None]
@@ -251,6 +253,6 @@ def run(ctx):
         "comparisons restricted to targets where the reference has alpha_s <= 0.5 (perturbative range)",
         "exact method: 1e-5 relative (the implementation asks its ODE solver for rtol 1e-6)",
         "expanded vs exact: fixed-order counting at fixed ln(mu^2/mu_ref^2): relative difference O(lambda^(n+1)); "
-        "O(lambda^2) when alpha_em runs; the pair of consecutive local exponents at the smallest couplings that agree to 0.15 must be >= demand-0.25, residuals below 1e-14 skipped, 11 scalings",
+        "O(lambda^2) when alpha_em runs; the pair of consecutive local exponents at the smallest couplings that agree to 0.15 is the asymptotic window; its last member must be >= demand-0.25, residuals below 1e-14 skipped, 11 scalings",
         "number of leptons 2 for mu^2 <= m_tau^2 = 1.777^2, else 3",
     ]
